@@ -148,6 +148,7 @@ pub struct RandomDirector {
     last_pending: char,
     consecutive_pend: u32,
     stall_loop_left: u32,
+    frame_buf: Vec<u8>,
     req_n: u32,
     idle: u32,
     drain_polls: u32,
@@ -206,6 +207,7 @@ impl RandomDirector {
             last_pending: ' ',
             consecutive_pend: 0,
             stall_loop_left: 0,
+            frame_buf: Vec::new(),
             req_n: 0,
             idle: 0,
             drain_polls: 0,
@@ -723,7 +725,7 @@ impl Director for RandomDirector {
         let len = offered.len();
         // a transport that accepts nothing: only where no packet is half-written, so that the stream
         // stays well-formed if the client treats it (as it documents) as a non-fatal error
-        if !self.benign && self.p.p_wzero > 0.0 && self.broker.inbuf.is_empty() && self.chance(self.p.p_wzero) {
+        if !self.benign && self.p.p_wzero > 0.0 && self.frame_buf.is_empty() && self.chance(self.p.p_wzero) {
             return IoDec::Zero;
         }
         if !self.benign && len > 1 {
@@ -786,10 +788,14 @@ impl Director for RandomDirector {
     }
 
     fn wrote(&mut self, bytes: &[u8]) {
+        // where the outbound stream stands relative to packet boundaries (whatever the broker does with it)
+        self.frame_buf.extend_from_slice(bytes);
+        while rc::take_packet(&mut self.frame_buf).is_some() {}
         self.broker_receive(bytes);
     }
 
     fn new_transport(&mut self) {
+        self.frame_buf.clear();
         self.broker.inbuf.clear();
         self.broker.outq.clear();
         self.broker.hold_until = 0;
